@@ -151,7 +151,11 @@ loop:
 		}
 		err := ctx.RenderChildren(w)
 		if err == nil || err.Cause() == errLoopBreak || err.Cause() == errLoopContinueLoop {
-			if err := decorator.after(w, i, l); err != nil {
+			end := l
+			if err != nil && err.Cause() == errLoopBreak {
+				end = i + 1 // the item the loop is left at is the last one: its row is closed too
+			}
+			if err := decorator.after(w, i, end); err != nil {
 				return err
 			}
 		}
